@@ -345,6 +345,10 @@ pub fn gen_table(rng: &mut Rng, name: &str, others: &[TableDef], profile: Profil
         let ty = gen_type(rng, profile);
         let mut c = col(cn, ty.clone(), rng.chance(1, 2));
         c.default = gen_default(rng, &ty, profile);
+        if profile == Profile::Loader && c.nullable && enum_labels(&ty).is_none() && rng.chance(1, 10) {
+            // the explicit NULL literal in its spellings: a default like any other for the planner (compared as SQL text)
+            c.default = Some(DefaultValue::String(rng.pick(&["NULL", "null", " Null "]).to_string()));
+        }
         if rng.chance(1, 6) {
             c.comment = Some(if profile == Profile::Loader && rng.chance(1, 3) {
                 "주석 'quoted' text that is rather long, longer than thirty chars".into()
@@ -534,7 +538,7 @@ pub fn edit_models(rng: &mut Rng, m: &mut Vec<TableDef>, profile: Profile) -> &'
         }
         return "big_step";
     }
-    match rng.below(18) {
+    match rng.below(20) {
         0 => {
             // add table
             let mut pool: Vec<&str> = TABLE_POOL.to_vec();
@@ -769,6 +773,65 @@ pub fn edit_models(rng: &mut Rng, m: &mut Vec<TableDef>, profile: Profile) -> &'
                 }
             }
             "noop"
+        }
+        18 | 19 => {
+            // foreign-key cycles between EXISTING tables and their removal: if two tables reference each other, drop both
+            // (with everything that references them) together with one unrelated table; otherwise make two tables reference each other
+            let refs_of = |t: &TableDef| -> Vec<String> {
+                t.normalize().map(|n| n.constraints.iter().filter_map(|c| match c { TableConstraint::ForeignKey { ref_table, .. } => Some(ref_table.clone()), _ => None }).collect()).unwrap_or_default()
+            };
+            let mut pair: Option<(String, String)> = None;
+            for a in m.iter() {
+                for b in m.iter() {
+                    if a.name < b.name && refs_of(a).contains(&b.name) && refs_of(b).contains(&a.name) {
+                        pair = Some((a.name.clone(), b.name.clone()));
+                    }
+                }
+            }
+            if let Some((a, b)) = pair {
+                let mut gone: Vec<String> = vec![a, b];
+                if let Some(t) = m.iter().find(|t| !gone.contains(&t.name)) {
+                    if rng.chance(3, 4) {
+                        gone.push(if rng.chance(1, 2) { t.name.clone() } else { m.iter().filter(|t| !gone.contains(&t.name)).last().map(|t| t.name.clone()).unwrap() });
+                    }
+                }
+                // close under "references a dropped table"
+                loop {
+                    let more: Vec<String> = m.iter().filter(|t| !gone.contains(&t.name) && refs_of(t).iter().any(|r| gone.contains(r))).map(|t| t.name.clone()).collect();
+                    if more.is_empty() {
+                        break;
+                    }
+                    gone.extend(more);
+                }
+                m.retain(|t| !gone.contains(&t.name));
+                return "drop_fk_cycle_with_bystander";
+            }
+            if m.len() < 2 {
+                return "noop";
+            }
+            let oi = (ti + 1 + rng.below(m.len() - 1)) % m.len();
+            let (ta, tb) = (m[ti].clone(), m[oi].clone());
+            let (pa, pb) = (pk_columns(&ta), pk_columns(&tb));
+            if pa.len() != 1 || pb.len() != 1 {
+                return "noop";
+            }
+            let (Some(tya), Some(tyb)) = (find_col(&ta, &pa[0]).map(|c| c.r#type.clone()), find_col(&tb, &pb[0]).map(|c| c.r#type.clone())) else { return "noop" };
+            let (ca, cb) = (format!("{}_{}", tb.name, pb[0]), format!("{}_{}", ta.name, pa[0]));
+            {
+                let t = &mut m[ti];
+                if !t.columns.iter().any(|c| c.name == ca) {
+                    t.columns.push(col(&ca, tyb, true));
+                }
+                add_fk(rng, t, &ca, &tb.name, &pb[0]);
+            }
+            {
+                let t = &mut m[oi];
+                if !t.columns.iter().any(|c| c.name == cb) {
+                    t.columns.push(col(&cb, tya, true));
+                }
+                add_fk(rng, t, &cb, &ta.name, &pa[0]);
+            }
+            "make_fk_cycle"
         }
         14 => {
             // add FK to another table
